@@ -42,7 +42,9 @@ RULE = (
     "of those (delete/add member, retype value, swap tag, resize array); each is judged by Lean "
     "Schema.eval on the published schema, by the jsonschema package (Draft 2020-12) and by the Python "
     "evaluator; the oracle compares the Python evaluator's verdict on the published vs the generated "
-    "schema. Non-trivial = the document is a non-empty object or array and a verdict (true/false) "
+    "schema. In addition random small acyclic $defs tables over every modelled keyword (synthetic schemas: "
+    "items after prefixItems, type lists, const/enum on objects with permuted members, allOf, ...) are "
+    "judged three-way on data values, instances and mutated instances. Non-trivial = the document is a non-empty object or array and a verdict (true/false) "
     "is reached; distinct by (file, root, document)."
 )
 TRUSTED = [
@@ -59,8 +61,6 @@ ASSUMPTIONS = [
     "JSON objects have pairwise distinct keys (Python dict)",
 ]
 
-SCHEMA_DIR = REPO / "specification" / "schema"
-GEN_SCRIPT = REPO / "scripts" / "generate_schema.py"
 NCHUNK = 8
 VT_PY = "python3-vt"
 
@@ -325,7 +325,7 @@ def translate(repo: Path, gen_dir: Path) -> list[str]:
     except Exception as e:  # noqa: BLE001  generator crash, unreadable published file
         cfgs = []
         problems.append(f"translation failed: {e!r}"[:1500])
-        if any(gen_dir.glob("Schema*.lean")):
+        if (gen_dir / "SchemaTables.lean").exists():
             return problems  # keep the previous terms so the infrastructure still builds
     ver = generated(repo)["versions"] if cfgs else {}
     wanted: dict[str, str] = {}
@@ -435,9 +435,10 @@ def translate(repo: Path, gen_dir: Path) -> list[str]:
     wanted["SchemaIndex"] = "\n".join(index) + "\n"
     for m, text in wanted.items():
         _write_if_changed(gen_dir / f"{m}.lean", text)
-    for f in gen_dir.glob("Schema*.lean"):
-        if f.stem not in wanted:
-            f.unlink()
+    for pat in ("SchemaT_*.lean", "SchemaE_*.lean"):
+        for f in gen_dir.glob(pat):
+            if f.stem not in wanted:
+                f.unlink()
     return problems
 
 
